@@ -131,6 +131,29 @@ func modEF(k int32, slot int32, failing bool) []byte {
 	return m.Encode()
 }
 
+// modT(j, slot): a module with a function type nobody else has ((2+j) x i32 -> i32).  Its function tf
+// (= first parameter + 1000*(j+1)) goes into A's table at slot; tcall(s, x) calls slot s WITH THAT TYPE:
+// whatever has another type there is an "indirect call type mismatch", whatever was compiled or closed since.
+func modT(j int, slot int32) []byte {
+	m := &wasmb.Module{}
+	i32 := []wasmb.ValType{wasmb.I32}
+	var params []wasmb.ValType
+	for k := 0; k < 2+j; k++ {
+		params = append(params, wasmb.I32)
+	}
+	m.Imports = append(m.Imports, wasmb.Import{Module: "a", Name: "tab", Kind: wasmb.KindTable, Table: wasmb.Table{Elem: wasmb.FuncRef, Lim: wasmb.Limits{Min: 4}}})
+	tj := m.AddType(params, i32)
+	tf := m.AddFunc(params, i32, nil, (&wasmb.Code{}).LocalGet(0).I32Const(int32(1000*(j+1))).I32Add().B, "tf")
+	m.Elems = []wasmb.Elem{{Mode: 0, Offset: wasmb.ConstI32(slot), Funcs: []uint32{tf}}}
+	c := (&wasmb.Code{}).LocalGet(1)
+	for k := 0; k < 1+j; k++ {
+		c.I32Const(0)
+	}
+	c.LocalGet(0).CallIndirect(tj, 0)
+	m.AddFunc([]wasmb.ValType{wasmb.I32, wasmb.I32}, i32, nil, c.B, "tcall")
+	return m.Encode()
+}
+
 // modG imports NOTHING of A but its immutable funcref global; viaglob(x) puts the reference into its own
 // table and calls it.
 func modG() []byte {
@@ -217,6 +240,8 @@ type runner struct {
 	followUp        []int
 	leftover        map[int]int32 // table slot -> multiplier of the function a FAILED importer left there
 	forceImporter   bool
+	forceKind       byte
+	forceKinds      []byte // queue of kinds for the next instantiations (all compiled explicitly)
 	cacheClosed     bool
 	shape           []string
 	gcAfterClose    bool
@@ -375,6 +400,14 @@ func (c09) Run(t *tape.Tape, cfg sim.Config) (res sim.Result) {
 	r.real = r.newSide(shared, false)
 	r.twin = r.newSide(shared, true)
 	nops := t.Range(8, 30)
+	if t.Chance(1, 6) {
+		// focus: several modules with a function type of their own on A's table; the compilation of an older
+		// one is closed, a new one is compiled, then the newest and the most recent live one call each other's
+		// slots with their own types
+		r.forceKinds = []byte{'A', 'T', 'T', 'T'}
+		r.followUp = []int{0, 0, 0, 0, 400}
+		res.Stat("probe.focus_own_function_types", 1)
+	}
 	for i := 0; i < nops && res.Violation == nil; i++ {
 		r.step(shared)
 		res.Steps++
@@ -429,6 +462,8 @@ func (r *runner) instantiateOn(s *side, kind byte, k int32, via int, rtIdx int) 
 		bin = modG()
 	case 'H':
 		bin = modH()
+	case 'T':
+		bin = modT(int(k), 1+k%3)
 	}
 	rt := s.rts[rtIdx]
 	in := &instance{kind: kind, k: k, rt: rtIdx, definer: -1, glob: -1, slots: [3]int{-1, -1, -1}}
@@ -577,6 +612,48 @@ func (r *runner) step(shared bool) {
 		k = r.followUp[0]
 		r.followUp = r.followUp[1:]
 	}
+	if k == 400 {
+		// close the compilation of the OLDEST live module with a type of its own, then let the rest follow
+		first, last := -1, -1
+		for j, o := range r.real.insts {
+			if o.kind == 'T' && !o.closed && o.compiled != nil && !o.compiledClosed {
+				if first < 0 {
+					first = j
+				}
+				last = j
+			}
+		}
+		if first >= 0 && last != first {
+			r.real.insts[first].compiled.Close(r.ctx)
+			r.real.insts[first].compiledClosed = true
+			r.closedOrDropped = true
+			r.res.Stat("fault.close_compiled", 1)
+			r.log("closeCompiled #%d (own-type focus)", first)
+			r.forceKinds = []byte{'T'}
+			r.followUp = []int{0, 300 + last}
+		}
+		return
+	}
+	if k >= 300 {
+		// forced probe: an older module with a type of its own calls, with that type, the slot the NEWEST
+		// module with a type of its own wrote (and the other way round)
+		j, newest := k-300, -1
+		for i, in := range r.real.insts {
+			if in.kind == 'T' && !in.closed {
+				newest = i
+			}
+		}
+		if j < len(r.real.insts) && newest >= 0 && newest != j && !r.real.insts[j].closed && r.real.pausedInst < 0 {
+			x := uint64(t.Choose(100))
+			r.res.Stat("probe.own_type_modules_meet_after_a_compilation_with_its_own_type_was_closed", 1)
+			sn, so := uint64(1+r.real.insts[newest].k%3), uint64(1+r.real.insts[j].k%3)
+			r.compareCall(fmt.Sprintf("call #%d T.tcall(%d,%d) [slot written by the module compiled last, #%d]", j, sn, x, newest), j, "tcall", sn, x)
+			if r.res.Violation == nil {
+				r.compareCall(fmt.Sprintf("call #%d T.tcall(%d,%d) [slot written by the older #%d]", newest, so, x, j), newest, "tcall", so, x)
+			}
+		}
+		return
+	}
 	if k >= 200 {
 		// forced probe: an importer whose definer was just dropped and collected is called
 		if j := k - 200; j < len(r.real.insts) && !r.real.insts[j].closed && j != r.real.pausedInst {
@@ -601,15 +678,22 @@ func (r *runner) step(shared bool) {
 	}
 	switch k {
 	case 0: // instantiate
-		kind := "ABCDEGHM"[t.Weighted(3, 3, 3, 2, 3, 2, 2, 1)]
+		kind := "ABCDEGHMT"[t.Weighted(3, 3, 3, 2, 3, 2, 2, 1, 3)]
 		if r.forceImporter {
 			kind = 'B'
 			r.forceImporter = false
 		}
+		if r.forceKind != 0 {
+			kind, r.forceKind = r.forceKind, 0
+		}
+		forcedVia := false
+		if len(r.forceKinds) > 0 {
+			kind, r.forceKinds, forcedVia = r.forceKinds[0], r.forceKinds[1:], true
+		}
 		if kind == 'A' && r.curA >= 0 {
 			kind = 'B'
 		}
-		if (kind == 'B' || kind == 'D' || kind == 'E' || kind == 'G') && r.curA < 0 {
+		if (kind == 'B' || kind == 'D' || kind == 'E' || kind == 'G' || kind == 'T') && r.curA < 0 {
 			kind = 'A'
 		}
 		if kind == 'H' && r.curM < 0 {
@@ -645,6 +729,9 @@ func (r *runner) step(shared bool) {
 			return // (new compilations after closing the shared cache are outside the property)
 		}
 		kk := int32(1 + len(r.real.insts)*7)
+		if kind == 'T' {
+			kk = int32(len(r.real.insts)) // the number of parameters of its type: never seen before in this run
+		}
 		if kind == 'E' && t.Chance(1, 3) {
 			// an importer that FAILS after its element segment was applied: nothing of it is registered, no
 			// handle exists, but its function sits in A's table (specification: the write persists)
@@ -665,6 +752,9 @@ func (r *runner) step(shared bool) {
 			return
 		}
 		via := t.Choose(2)
+		if forcedVia {
+			via = 1
+		}
 		rtIdx := 0
 		if shared && kind == 'C' {
 			rtIdx = t.Choose(2)
@@ -678,7 +768,7 @@ func (r *runner) step(shared bool) {
 			}
 			return
 		}
-		if kind == 'B' || kind == 'D' || kind == 'E' || kind == 'G' {
+		if kind == 'B' || kind == 'D' || kind == 'E' || kind == 'G' || kind == 'T' {
 			ri.definer, ti.definer = r.curA, r.curA
 		}
 		if kind == 'H' {
@@ -698,7 +788,7 @@ func (r *runner) step(shared bool) {
 			r.everM = true
 		}
 	case 1: // call
-		i := r.pickInst("ABCDEGH", true)
+		i := r.pickInst("ABCDEGHT", true)
 		if i < 0 || i == r.real.pausedInst {
 			return
 		}
@@ -715,6 +805,9 @@ func (r *runner) step(shared bool) {
 			}
 		case 'E':
 			r.compareCall(fmt.Sprintf("call #%d E.mul(%d)", i, x), i, "mul", x)
+		case 'T':
+			slot := uint64(t.Choose(4))
+			r.compareCall(fmt.Sprintf("call #%d T.tcall(%d,%d) [call_indirect with its own %d-parameter type]", i, slot, x, 2+in.k), i, "tcall", slot, x)
 		case 'G':
 			r.compareCall(fmt.Sprintf("call #%d G.viaglob(%d) [imports only the funcref global of #%d]", i, x, in.definer), i, "viaglob", x)
 		case 'H':
@@ -776,7 +869,7 @@ func (r *runner) step(shared bool) {
 			r.log("passref A#%d -> C#%d.slot%d err=%v", a, c, slot, err)
 		}
 	case 3: // close instance
-		i := r.pickInst("ABCDEGHM", true)
+		i := r.pickInst("ABCDEGHMT", true)
 		if i < 0 || i == r.real.pausedInst {
 			return
 		}
@@ -806,10 +899,22 @@ func (r *runner) step(shared bool) {
 		err := r.real.insts[i].compiled.Close(r.ctx)
 		r.real.insts[i].compiledClosed = true
 		r.closedOrDropped = true
+		if r.real.insts[i].kind == 'T' && r.curA >= 0 {
+			// a compilation with a type of its own is gone: another one arrives, then the live ones meet it
+			last := -1
+			for j, o := range r.real.insts {
+				if o.kind == 'T' && j != i && !o.closed {
+					last = j // the most recent one: its type was seen last
+				}
+			}
+			if last >= 0 && t.Chance(3, 4) {
+				r.followUp, r.forceKind = []int{0, 300 + last}, 'T'
+			}
+		}
 		r.res.Stat("fault.close_compiled", 1)
 		r.log("closeCompiled #%d err=%v", i, err)
 	case 5: // drop the harness's references
-		i := r.pickInst("ABCDEGHM", false)
+		i := r.pickInst("ABCDEGHMT", false)
 		if i < 0 || i == r.real.pausedInst {
 			return
 		}
